@@ -468,8 +468,10 @@ func TestVerifVaa(t *testing.T) {
 	part := os.Getenv("VERIF_PART")
 	plens := []int{1, 2, 3, 52, 53, 100, 999, 1000, 1001, 1002, 1024, 2000, 4096}
 	nsig := []int{0, 1, 2, 13, 19, 255}
+	// the 16-bit boundary of the payload length (no length field on the wire: the payload is "the rest")
+	plens = append(plens, 65535, 65536, 65537)
 	if thorough {
-		plens = append(plens, 9999, 65535, 65536, 200000)
+		plens = append(plens, 9999, 70000, 200000)
 	}
 	rounds := 3
 	if thorough {
@@ -482,6 +484,9 @@ func TestVerifVaa(t *testing.T) {
 		for _, pl := range plens {
 			for _, ns := range nsig {
 				if ns == 255 && pl > 1100 && !thorough {
+					continue
+				}
+				if pl > 60000 && !thorough && (ns > 1 || round > 0) {
 					continue
 				}
 				v := g.randVAA(ns, pl)
